@@ -91,11 +91,28 @@ def main():
             if r.returncode != 0:
                 caught = ("harness-exit-%d" % r.returncode, [r.stdout[-300:]])
                 break
+        # a change can break a neighbouring property's clause more visibly than its own:
+        # seeded/<id>/ALSO names the checks to try when the property's own check is silent
+        also = os.path.join(d, "ALSO")
+        if not caught and os.path.exists(also):
+            for other in open(also).read().split():
+                r = subprocess.run([os.path.join(VERIF, "check"), other, "--tier", "quick"], env=env,
+                                   stdout=subprocess.PIPE, stderr=subprocess.STDOUT, text=True,
+                                   cwd=VERIF)
+                sigs = sorted(set(re.findall(r"signature: (\S+)", r.stdout)))
+                ran.append("VERIF_REPO=<patched worktree> ./check %s --tier quick -> exit %d"
+                           % (other, r.returncode))
+                if r.returncode == 1:
+                    caught = ("other", ["%s quick: %s" % (other, ", ".join(sigs[:6]))])
+                    break
         sh("git -C %s checkout -- ." % WT)
         meta["ran"] = ran
         if caught and caught[0] in ("quick", "thorough"):
             meta.update(result="caught", caught_by="%s %s: %s" % (prop, caught[0],
                                                                   ", ".join(caught[1][:6])))
+        elif caught and caught[0] == "other":
+            meta.update(result="caught-by-neighbour", caught_by=caught[1][0],
+                        note="the property's own check is silent on this change")
         elif caught:
             meta.update(result=caught[0], detail=caught[1])
         else:
